@@ -24,6 +24,27 @@ PDIR = ROOT + '/props/C16'
 CDIR = ROOT + '/coq/C16'
 DUMP_JSON = PDIR + '/dump.json'
 
+# paths; the engine may redirect them through ctx (mutation experiments on a scratch worktree: VERIF_REPO)
+_CFG = {'hdir': ROOT + '/harness', 'tdir': ROOT + '/build/target', 'coq': ROOT + '/coq', 'repo': '/repo', 'dump_json': DUMP_JSON}
+
+
+def configure(ctx):
+    """take the path overrides of the engine: harness dir / cargo target dir, Coq tree, repository, dump.json"""
+    if not ctx:
+        return
+    if 'harness_dir' in ctx:
+        _CFG['hdir'], _CFG['tdir'] = ctx['harness_dir']()
+    if ctx.get('COQ'):
+        _CFG['coq'] = ctx['COQ']
+    if ctx.get('REPO'):
+        _CFG['repo'] = ctx['REPO'].rstrip('/')
+    if ctx.get('ALT'):
+        d = ctx['BUILD'] + '/alt'
+        os.makedirs(d, exist_ok=True)
+        _CFG['dump_json'] = d + '/C16_dump.json'
+    else:
+        _CFG['dump_json'] = DUMP_JSON
+
 OPS = {'mont_rr2': 1, 'two_adic': 2, 'num_bits': 3, 'cfg_mont': 4, 'cfg_two_adic': 5, 'cfg_root': 6,
        'cfg_pow': 7, 'fact': 99}
 
@@ -44,15 +65,16 @@ def run_dump(build=True):
     env = dict(os.environ)
     env['CARGO_NET_OFFLINE'] = 'true'
     env['RUSTFLAGS'] = '--cfg arkworks_rs_algebra_verif'
-    if not os.path.exists(ROOT + '/harness/Cargo.lock'):
+    if not os.path.exists(_CFG['hdir'] + '/Cargo.lock'):
         import shutil
-        shutil.copy('/repo/Cargo.lock', ROOT + '/harness/Cargo.lock')
+        lock = _CFG['repo'] + '/Cargo.lock'
+        shutil.copy(lock if os.path.exists(lock) else '/repo/Cargo.lock', _CFG['hdir'] + '/Cargo.lock')
     if build:
-        p = subprocess.run('cargo build --offline --bin c16', shell=True, cwd=ROOT + '/harness', env=env,
+        p = subprocess.run('cargo build --offline --bin c16', shell=True, cwd=_CFG['hdir'], env=env,
                            stdout=subprocess.PIPE, stderr=subprocess.STDOUT, text=True, timeout=3000)
         if p.returncode != 0:
             raise RuntimeError('harness bin c16 does not build: ' + p.stdout[-1500:])
-    p = subprocess.run([ROOT + '/build/target/debug/c16', 'dump'], stdout=subprocess.PIPE, stderr=subprocess.PIPE,
+    p = subprocess.run([_CFG['tdir'] + '/debug/c16', 'dump'], stdout=subprocess.PIPE, stderr=subprocess.PIPE,
                        text=True, timeout=600)
     if p.returncode != 0:
         raise RuntimeError('c16 dump failed: ' + p.stderr[-1500:])
@@ -62,7 +84,7 @@ def run_dump(build=True):
     for crate in ('bls12_381', 'bls12_377'):
         fq = [r for r in recs if r.get('crate') == crate and r.get('name') == 'fq' and r.get('kind') == 'prime']
         try:
-            d = srcscan.private_psi(crate, fq[0]['MODULUS'])
+            d = srcscan.private_psi(crate, fq[0]['MODULUS'], _CFG['repo'])
         except Exception as ex:
             NOTES.append('%s: P_POWER_ENDOMORPHISM coefficients could not be read from the source text (%s): no psi facts' % (crate, ex))
             continue
@@ -955,6 +977,7 @@ HEADER = '(* GENERATED by props/C16/prop.py from `c16 dump` (constants of the cr
 
 def gen_coq(defs, facts):
     changed = []
+    CDIR = _CFG['coq'] + '/C16'
     os.makedirs(CDIR, exist_ok=True)
     for crate in CRATES:
         ds = defs.get(crate, [])
@@ -1002,8 +1025,8 @@ def short(v):
 
 def regenerate(build=True):
     recs = run_dump(build)
-    os.makedirs(PDIR, exist_ok=True)
-    write_if_changed(DUMP_JSON, json.dumps(recs, indent=0, sort_keys=True) + '\n')
+    os.makedirs(os.path.dirname(_CFG['dump_json']), exist_ok=True)
+    write_if_changed(_CFG['dump_json'], json.dumps(recs, indent=0, sort_keys=True) + '\n')
     defs, facts, ids, by = build_facts(recs)
     changed = gen_coq(defs, facts)
     _STATE.update(recs=recs, facts=facts, ids=ids, by=by)
@@ -1021,7 +1044,7 @@ def registry_scan(recs):
     for r in recs:
         have.add(r['crate'])
     unc = []
-    for d in sorted(glob.glob('/repo/curves/*/src')):
+    for d in sorted(glob.glob(_CFG['repo'] + '/curves/*/src')):
         crate = d.split('/')[-2]
         if crate == 'curve-constraint-tests':
             continue
@@ -1038,6 +1061,7 @@ def registry_scan(recs):
 
 
 def pre(ctx):
+    configure(ctx)
     recs, facts, changed = regenerate(build=True)
     if changed:
         ctx['notes'].append('regenerated from the dump: ' + ', '.join(changed))
@@ -1048,7 +1072,7 @@ def pre(ctx):
         ctx['notes'].append('source-text cross-check skipped (C16_TAMPER self-test)')
     else:
         import srcscan
-        comp, skip, bad = srcscan.scan([r for r in recs if not r.get('from_source')])
+        comp, skip, bad = srcscan.scan([r for r in recs if not r.get('from_source')], _CFG['hdir'] + '/src/bin/c16.rs', _CFG['repo'])
         _STATE['src_bad'] = bad
         reexp = [x for x in skip if 're-exported' in x]
         other = [x for x in skip if 're-exported' not in x]
@@ -1069,6 +1093,7 @@ def pre(ctx):
 
 
 def extra(ctx, cases, lines, impl_out, model_out):
+    configure(ctx)
     if 'facts' not in _STATE:
         regenerate(build=False)
     if _STATE.get('src_bad'):
@@ -1091,8 +1116,8 @@ def limbs(v, n):
 def gen(rng, tier):
     scale = 1 if tier == 'quick' else 20
     if 'recs' not in _STATE:
-        if os.path.exists(DUMP_JSON):
-            recs = json.load(open(DUMP_JSON))
+        if os.path.exists(_CFG['dump_json']):
+            recs = json.load(open(_CFG['dump_json']))
             defs, facts, ids, by = build_facts(recs)
             _STATE.update(recs=recs, facts=facts, ids=ids, by=by)
         else:
